@@ -5,7 +5,7 @@ from oracle_util import *  # noqa
 from protocol import from_real, to_real
 
 ID = "C05"
-LEAN_MODULE = ["SCoda.Props.C05", "SCoda.Props.C05b", "SCoda.Props.Strong589Q", "SCoda.Props.WrapTie", "SCoda.Props.AbsTie2"]
+LEAN_MODULE = ["SCoda.Props.C05", "SCoda.Props.C05b", "SCoda.Props.Strong589Q", "SCoda.Props.WrapTie", "SCoda.Props.AbsTie2", "SCoda.Props.UtilTie"]
 LEVEL = "proof"
 CLAUSES = [
     ("every remaining event lies on a tick divisible by at least one step size; quantise never fails on well-formed input",
@@ -27,6 +27,8 @@ CLAUSES = [
       "SCoda.C05.survives_statement_false", "SCoda.C05.dropped_statement_false"]),
     ("TIE BY TRANSLATION, absolute view with object identity: the dict-heavy / aliasing methods of AbsoluteSequence are re-translated statement by statement on every run (Gen/AbsFns2.lean, tools/py2lean_abs2.py: Message objects live in a heap, a reference is a position tag, stores through any alias update the heap cell, dicts are insertion-ordered association lists, while loops carry proved fuel bounds) and proved equal to the hand models, for every heap and reference list with references into the heap and channels not None: quantise = the model quantise — same messages or the same error (KeyError / IndexError cases included) — for pairwise distinct objects and positive step sizes (step 0 raises ZeroDivisionError in the code and the translation, the model returns []: replayed); find_minimal_distance = the model's, no hypothesis",
      ["SCoda.AbsTie2.quantise_eq", "SCoda.AbsTie2.quantise_init", "SCoda.AbsTie2.findMinimalDistance_eq", "SCoda.AbsTie2.pairings_eq", "SCoda.AbsTie2.pairings_init"]),
+    ("TIE BY TRANSLATION, numeric helpers: scoda/misc/util.py is re-translated statement by statement on every run (Gen/UtilFns.lean, tools/py2lean_util.py: one operator of the PyNum int/float tower per Python operator — floats as exact rationals, no rounding modelled —, range/enumerate/zip/comprehensions, while with proved fuel, numpy.digitize(right=True) modelled explicitly) and tied to the hand models and to the dumped tables: find_minimal_distance = the model's for all integer inputs, and meets its independent specification: the index is in range, no element is closer, and it is the FIRST such index",
+     ["SCoda.UtilTie.findMinimalDistance_eq", "SCoda.UtilTie.findMinimalDistance_spec", "SCoda.UtilTie.getDefaultStepSizes_of_py", "SCoda.UtilTie.default_tables_from_source"]),
 ]
 RULE = ("well-formed multi-channel note sets (<=8 notes, 3 channels, ticks<200, 30% very short notes, abutting notes) with "
         "non-note events x step lists from the defaults and {2,3,4,5,7,12,16,24}; non-trivial = at least two notes or a note shorter than the largest step")
